@@ -14,6 +14,7 @@ _LEVEL = ('Static necessary-condition checking: each rule is exact on its struct
           'claimed are those whose truth is visible in the shape of the code.')
 
 RULEDOC = {
+ 'SA-CACHE.coherent': 'every cache in the module (memo dict, lru_cache, lazily filled slot) is coherent: the key determines the inputs, or the inputs are fixed at construction, or every writer of an input resets the cache',
  'SA-CSUM.fresh.eltorito': 'an El Torito checksum stored at construction covers only fields no later method rewrites; one stored elsewhere is recomputed before every use',
  'SA-CSUM.fresh.hybrid': 'a GPT checksum kept in object state is recomputed in the call that uses it (a memoised CRC goes stale when update_efi/update_mac move the partitions)',
  'SA-CSUM.fresh.udf': 'a UDF tag CRC/checksum kept in object state is recomputed in the call that uses it',
@@ -163,7 +164,7 @@ def _d(pid):
     from . import registry
     rids = registry.prop_rules(pid)
     head, technique, notdecided = PROP[pid]
-    parts = ['%s (%s)' % (RULEDOC.get(r, r), r) for r in rids]
+    parts = ['%s (%s)' % (RULEDOC.get(r) or RULEDOC.get(r.rsplit('.', 1)[0], r), r) for r in rids]
     expl = '%s: %s. Not decided: %s.' % (head, '; '.join(parts), notdecided)
     return {'explanation': expl, 'technique': technique, 'level_text': _LEVEL, 'level_note': _COMMON_NOTE,
             'design_ref': 'DESIGN.md section 5/%s' % pid,
